@@ -95,7 +95,7 @@ VALUE_POOL = {
 STDERR_POOL = {"nan": [float("nan")], "short": [0.5, 0.01, 2.5e-3, 12.0], "frac17": FRAC17}
 MIN_POOL = [0, 0.0, -1.5, -1000.0, 0.001, -1e308]     # the first one is an int on purpose (DESIGN §7 harness lesson)
 MAX_POOL = [10, 1.0, 1e6, 1000.5, 1e308]
-EXPR_FORMS = ["${x}", "2 * ${x}", "${x} + 1", "${x} / 3"]
+EXPR_FORMS = ["${x}", "2 * ${x}", "${x} + 1", "${x} / 3", "2.5", "2"]      # the last two: constant expressions that look like numbers (they are text all the same)
 
 
 def _sig17(x: float) -> bool:
@@ -116,6 +116,8 @@ def eval_expr(form: str, x: float) -> float:
         return x + 1
     if form == "${x} / 3":
         return x / 3
+    if form in ("2.5", "2"):
+        return float(form)
     raise MachineryError(f"unknown expression form {form}")
 
 
